@@ -1841,7 +1841,7 @@ def sec_varatio(ck):
                         "estimate_varatio(niter=%d) gives fixed=%r random=%r ratio=%r; the defining recursion gives %r %r %r"
                         % (niter, g_fixed, g_rand, g_ratio, float(fixed), float(sigma2), float(sigma2 / fixed)),
                         {"Y": Y[:, j].tolist(), "sd": sd[:, j].tolist(), "df": None if df is None else df.tolist(), "niter": niter})
-            if n <= 6 and j == 0:
+            if n <= 6 and j == 0 and niter <= 1:      # exact rationals grow doubly exponentially with niter: 2 iterations cost ~10 s per case
                 # Coq model (coq/C17/ModelVar.v) on the same input; Sreduction = the exact value of the double 0.99
                 args = (cq(0.99), cnat(niter), cql(Y[:, j].tolist()), cql(sd[:, j].tolist()))
                 cdf = cql([1.0] * n if df is None else df.tolist())
@@ -1851,10 +1851,10 @@ def sec_varatio(ck):
     run_terms(ck, "estimate_varatio", terms, metas,
               lambda t: "(Qred (vr_random %s %s %s %s), Qred (vr_fixed %s %s))"
               % (cq(0.99), cnat(t[1]), cql(t[2]), cql(t[3]), cql([1.0] * len(t[2]) if t[4] is None else t[4]), cql(t[3])),
-              hdr=HDR_MFX + "From NV.C17 Require Import ModelVar.\n", shard=60)
+              hdr=HDR_MFX + "From NV.C17 Require Import ModelVar.\n", shard=10)
     ck.section("estimate_varatio", model_cases=len(terms),
                note="re-computed with exact rationals (float(0.99) as in the source), tolerance 1e-10; the Coq model vr_random / vr_fixed / vr_ratio "
-                    "evaluated on the same inputs (n <= 6, sd of either sign, no zeros); evenness and shift invariance evaluated on the implementation")
+                    "evaluated on the same inputs (n <= 6, niter <= 1, sd of either sign, no zeros); evenness and shift invariance evaluated on the implementation")
 
 
 
